@@ -38,10 +38,10 @@ def stmt(kind, target, select):
 
 
 PRODUCE = ["cols2", "alias", "star", "expr", "cols3", "rev", "via_sq", "selfref"]
-CONSUME = ["all", "subset", "renamed", "star", "expr", "unq_join", "qual_join", "star_join", "star_scalar_sub", "scalar_sub", "via_sq"]
+CONSUME = ["all", "subset", "renamed", "star", "expr", "unq_join", "qual_join", "star_join", "star_scalar_sub", "scalar_sub", "via_sq", "alias_shadow"]
 SHAPES = ["line2", "line3", "line4", "fanin", "fanout", "diamond", "create_then_insert", "repeat_after_redefine"]
 KINDS = ["insert", "ctas", "view"]
-META = ["none", "knows-sources", "irrelevant"]
+META = ["none", "knows-sources", "irrelevant", "lca"]  # lca: provider knowing the sources + LATERAL_COLUMN_ALIAS_REFERENCE on
 
 
 def produce(pattern, kind, target, src, n0):
@@ -85,6 +85,10 @@ def consume(pattern, kind, target, srcs, names, other):
         inner = sel([col(None, nm[-1], "m")], [base(m)])
         d = {"k": "derived", "q": {"ctes": [], "branches": [inner], "ops": []}, "alias": "sq"}
         return stmt(kind, target, sel([col("sq", "m", "q" + nm[-1])], [d]))
+    if pattern == "alias_shadow":
+        # the first item's alias is the name of another column of the intermediate table; the second item reads that name:
+        # the table's own column (known from the session) - with lateral alias references on, still the table's column
+        return stmt(kind, target, sel([col(None, nm[-1], nm[0]), {"e": ["arith", ["col", None, nm[0]], ["col", None, nm[-1]]], "alias": "yy"}], [base(m)]))
     if pattern == "all":
         return stmt(kind, target, sel([col(None, n) for n in nm], [base(m)]))
     if pattern == "subset":
@@ -155,6 +159,8 @@ def gen_script(ch):
 def provider_map(case):
     if case["meta"] == "none":
         return {}
+    if case["meta"] == "lca":
+        case = dict(case, meta="knows-sources")
     if case["meta"] == "irrelevant":
         return {f"{S}.unrelated": ["id", "c1"]}
     K = {}
@@ -173,12 +179,16 @@ def reference(case):
     K = dict(provider_map(case))
     provider_in_use = bool(K)
     edges = []
-    for st in case["stmts"]:
-        pairs = refsem.columns(st, K, S, Kstar=(K if provider_in_use else {}))
-        edges.append([[a, b] for a, b in pairs])
-        names = refsem.output_names(st, K, S, Kstar=(K if provider_in_use else {}))
-        if names:
-            K[refsem.fq(st["target"], S)] = names
+    refsem.LCA_ON[0] = case["meta"] == "lca"
+    try:
+        for st in case["stmts"]:
+            pairs = refsem.columns(st, K, S, Kstar=(K if provider_in_use else {}))
+            edges.append([[a, b] for a, b in pairs])
+            names = refsem.output_names(st, K, S, Kstar=(K if provider_in_use else {}))
+            if names:
+                K[refsem.fq(st["target"], S)] = names
+    finally:
+        refsem.LCA_ON[0] = False
     return compose_paths(edges), {tuple(e) for es in edges for e in es}
 
 
@@ -192,7 +202,13 @@ def _eval(case):
     script = ";\n".join(sqlgen.render(st, sqlgen.R(qualify=S)) for st in case["stmts"])
     K = provider_map(case)
     prov = DummyMetaDataProvider({k: list(v) for k, v in K.items()}) if K else None
-    o = observe.observe(script, "ansi", provider=prov, level="columns")
+    if case["meta"] == "lca":
+        from sqllineage.config import SQLLineageConfig
+
+        with SQLLineageConfig(LATERAL_COLUMN_ALIAS_REFERENCE=True):
+            o = observe.observe(script, "ansi", provider=prov, level="columns")
+    else:
+        o = observe.observe(script, "ansi", provider=prov, level="columns")
     if "exception" in o:
         return {"script": script, "bad": "exception", "obs": o}
     exp_pairs, exp_edges = reference(case)
